@@ -148,9 +148,12 @@ def Arena.run : Arena → List BOp → Option Arena
 def Arena.skeleton (a : Arena) : List (Nat × Nat) := a.map fun c => (c.order, c.base)
 def Arena.AllFree (a : Arena) : Prop := ∀ c ∈ a, c.tree = .free
 
-/-- `malloc(required)`: block size incl. header, rounded to the alignment; its order (`get_bits`) -/
-def orderOfSize (n : Nat) : Nat := if n ≤ 1 then 0 else Nat.log2 (n - 1) + 1
+/-- `get_bits(n)`: the first `i` with `2^i ≥ n` (or `> n`, whichever comparison the source has) -/
+def orderOfSize (n : Nat) : Nat :=
+  if Gen.getBitsInclusive then (if n ≤ 1 then 0 else Nat.log2 (n - 1) + 1)
+  else (if n = 0 then 0 else Nat.log2 n + 1)
 
+/-- `malloc(required)`: block size incl. header, rounded to the alignment; its order (`get_bits`) -/
 def orderOf (required : Nat) : Nat := orderOfSize (Gen.blockSize required)
 
 /-- would `page_alloc(k)` succeed: some free block of order ≥ k exists -/
